@@ -19,7 +19,7 @@ AddCal(v, c) == Construct(v.z, AddCalWall(v.w, c), 1)
 Add(v, c) == IF HasCal(c) THEN AddCal(v, c) ELSE AddFixed(v, D3Of(0, c.h, c.mi, c.s, c.us))
 \* representable without touching the ends of the range (soundness rule 3)
 CalInRange(w, c) == LET ym == ShiftedYM(w, c)
-                    IN ym[1] \in 2..9998 /\ LET n == Ord(ym[1], ym[2], ym[3]) + 7 * c.w + c.d IN n > 800 /\ n < 3651000
+                    IN ym[1] \in 2..9999 /\ LET n == Ord(ym[1], ym[2], ym[3]) + 7 * c.w + c.d IN n > 800 /\ n < 3652055
 
 \* Date
 AddCalDate(w, c) == LET ym == ShiftedYM(<<w[1], w[2], w[3]>>, c) IN YMD(Ord(ym[1], ym[2], ym[3]) + 7 * c.w + c.d)
